@@ -49,6 +49,9 @@ def op_slice(rng, kit, pool, emit):
     emit(":slice", a[:j])
     if n:
         emit("index", a[rng.randrange(n)])
+    # reversed slices: the dagger of a part of the diagram
+    emit("slice-reversed", a[j:i:-1] if rng.random() < .5 else a[j::-1])
+    emit("slice-reversed:", a[:i:-1])
 
 
 def op_interchange(rng, kit, pool, emit):
